@@ -364,7 +364,10 @@ class SeparatedCoords(Coords):
         if type(self) is not type(other):
             return False
 
-        return np.array_equal(self.separated_coords, other.separated_coords)
+        if len(self.separated_coords) != len(other.separated_coords):
+            return False
+
+        return all(np.array_equal(a, b) for a, b in zip(self.separated_coords, other.separated_coords))
 
     def reverse(self):
         '''Reverse the ordering of points in-place.
